@@ -162,6 +162,16 @@ def oracle(ctx, s):
                 if n.token_index(ch) != i:
                     ctx.fail('token_index disagrees with the position', s, observed=n.token_index(ch), required=i)
                     return
+                # second pass: the `start` argument (an index or a token that is not behind `ch`): same answer from every admissible start
+                for st_arg in (i, i // 2, 0 if i == 0 else i - 1, n.tokens[i // 2], n.tokens[0]):
+                    try:
+                        got_i = n.token_index(ch, st_arg)
+                    except Exception as e:
+                        got_i = 'raised ' + type(e).__name__
+                    if got_i != i:
+                        ctx.fail('token_index(token, start) disagrees with the position', s, observed=got_i, required=i,
+                                 start=st_arg if isinstance(st_arg, int) else 'token at %d' % n.tokens.index(st_arg))
+                        return
                 if not ch.is_child_of(n) or not ch.has_ancestor(st) and n is not st and False:
                     ctx.fail('is_child_of disagrees', s, observed=False, required=True)
                     return
